@@ -112,9 +112,9 @@ package keeper
 //@   flag pure=GetConsensusAddrsToPrune
 //@   flag havoc=setConsensusAddrsToPrune
 //@   flag noframe
-//@   before[C16.acatp.append] setConsensusAddrsToPrune requires arg_epoch == epoch && len(arg_addrs.List) == len(res_GetConsensusAddrsToPrune_0) + 1 &&
+//@   before[C16.acatp.append,C07.acatp.append] setConsensusAddrsToPrune requires arg_epoch == epoch && len(arg_addrs.List) == len(res_GetConsensusAddrsToPrune_0) + 1 &&
 //@        arg_addrs.List[len(res_GetConsensusAddrsToPrune_0)] == operatorAddr && forall(i, 0, len(res_GetConsensusAddrsToPrune_0), arg_addrs.List[i] == res_GetConsensusAddrsToPrune_0[i])
-//@   before[C16.acatp.source] setConsensusAddrsToPrune requires defined(res_GetConsensusAddrsToPrune_0)
+//@   before[C16.acatp.source,C07.acatp.source] setConsensusAddrsToPrune requires defined(res_GetConsensusAddrsToPrune_0)
 
 //@ func (Keeper).AppendUndelegationToMature
 //@   emits mkEv(86, recordKey, epoch)
